@@ -236,11 +236,13 @@ def run_property(chk, prop, note=None):
     proof_ok, plog = True, ""
     if names:
         proof_ok, plog = vlib.standard_proof_stage(chk, prop, names)
-        # history-level lifts live in Properties/<prop>H.v
-        hnames = theorem_names(prop + "H")
-        if hnames:
+        # history-level lifts live in Properties/<prop>H.v (and <prop>L.v)
+        for suffix in ("H", "L"):
+            hnames = theorem_names(prop + suffix)
+            if not hnames:
+                continue
             first = dict(chk.coverage)
-            hok, hlog = vlib.standard_proof_stage(chk, prop + "H", hnames)
+            hok, hlog = vlib.standard_proof_stage(chk, prop + suffix, hnames)
             for key in ("assumptions_printed", "coq_files_in_closure"):
                 merged = first.get(key)
                 if isinstance(merged, dict):
@@ -252,10 +254,13 @@ def run_property(chk, prop, note=None):
     else:
         chk.coverage["theorems"] = "Properties/%s.v not present: no theorem is claimed by this run" % prop
     if thorough and names and proof_ok:
-        cok, csum = vlib.coqchk(prop)
-        chk.oblige("coqchk re-checks the .vo closure of Properties/%s with no axioms" % prop, cok)
-        chk.coverage["coqchk_summary"] = csum
-        proof_ok = proof_ok and cok
+        for mod in (prop, prop + "H", prop + "L"):
+            if not theorem_names(mod):
+                continue
+            cok, csum = vlib.coqchk(mod)
+            chk.oblige("coqchk re-checks the .vo closure of Properties/%s with no axioms" % mod, cok)
+            chk.coverage.setdefault("coqchk_summary", {})[mod] = csum[-300:]
+            proof_ok = proof_ok and cok
     # The model treats every cache operation as atomic (request granularity).
     # That is adequate for concurrent use only while every persistence call
     # made inside cache.Get/Set/Delete/compact/PurgeSessions happens under the
